@@ -109,3 +109,56 @@ def search(rep: C.Report, tier: str, broken):
                 cmp(f"kappa@{vw:.3f}", h.efficiencyFactor(vw), t.efficiencyFactor(vw), 3e-3, {"vw": vw})
             except Exception as ex:  # noqa: BLE001
                 rep.count("efficiencyFactor raised " + type(ex).__name__)
+    # ---- LTE wall velocity across the runaway threshold: the transition strength is scanned through the value where the general solver's
+    # answer jumps to the runaway sentinel (located by bisection); outside a 2.5 % margin around it both solvers must agree, in particular
+    # just ABOVE it (both runaway) and just below it (same interior root)
+    from WallGo.hydrodynamics import Hydrodynamics as _H
+
+    def both(p_):
+        e_ = make_eos(p_)
+        if not (e_.eps > 0 and e_.pHighT(e_.Tnucl) < e_.pLowT(e_.Tnucl)):
+            return None
+        try:
+            h_ = _H(e_, 10.0, 0.01, 1e-6, 1e-10)
+            a_ = float(h_.findvwLTE())
+        except Exception:  # noqa: BLE001
+            return None
+        try:
+            b_ = float(h_.template.findvwLTE())
+        except Exception as ex:  # noqa: BLE001
+            b_ = f"raised {type(ex).__name__}: {str(ex)[:80]}"
+        return a_, b_
+    sets = [dict(psi=0.79, cs2=0.324, cb2=0.269, Tn=1.0), dict(psi=0.9, cs2=0.30, cb2=0.25, Tn=50.0)]
+    if tier == "thorough":
+        sets += [dict(psi=r.uniform(0.55, 0.95), cs2=r.uniform(0.25, 1 / 3), cb2=r.uniform(0.2, 0.25), Tn=10 ** r.uniform(-2, 2)) for _ in range(5)]
+    for base in sets:
+        lo, hi = 0.01, 0.9
+        rl = both(dict(base, alpha=lo))
+        while rl is None and lo < 0.5:        # smallest strength for which the transition proceeds at Tn
+            lo *= 1.4
+            rl = both(dict(base, alpha=lo))
+        rh = both(dict(base, alpha=hi))
+        if rl is None or rh is None or not (rl[0] < 1 and rh[0] == 1):
+            rep.count("LTE threshold scan: no bracket")
+            continue
+        for _ in range(9):
+            mid = math.sqrt(lo * hi)
+            rm = both(dict(base, alpha=mid))
+            if rm is None:
+                break
+            lo, hi = (mid, hi) if rm[0] < 1 else (lo, mid)
+        astar = math.sqrt(lo * hi)
+        for f in ((0.9, 0.96, 1.04, 1.08, 1.15, 1.3) if tier == "quick" else (0.8, 0.9, 0.95, 0.97, 1.03, 1.05, 1.08, 1.12, 1.2, 1.35, 1.6)):
+            pf = dict(base, alpha=astar * f)
+            res = both(pf)
+            if res is None:
+                continue
+            a_, b_ = res
+            rep.case(key=("LTE-threshold", str(sorted(base.items())), f))
+            rep.count("LTE threshold scan points")
+            ok_ = not isinstance(b_, str) and abs(a_ - b_) <= 5e-4 * max(abs(a_), abs(b_), 1e-300)
+            if not ok_:
+                rep.violation(f"general and template solver disagree on the LTE wall velocity near the runaway threshold: {a_} vs {b_}",
+                              {"params": pf, "runaway_threshold_alpha(general solver, bisection)": astar, "alpha_over_threshold": f, "general": a_,
+                               "template": b_, "how": "props/C15.make_eos(params) -> Hydrodynamics(...).findvwLTE() vs .template.findvwLTE()"},
+                              finding_key="C15:vwLTE-threshold")
